@@ -662,6 +662,8 @@ class FSA:
                                         elist=False)
 
                 if not visited[neighbor]:
+                    # mark when queued, so a vertex is only expanded once
+                    visited[neighbor] = True
                     to_visit.append(neighbor)
 
         return new_automaton
